@@ -254,7 +254,7 @@ def main():
             import gdesign
             os.makedirs(tmp + "/h", exist_ok=True)
             with cf.ThreadPoolExecutor(max_workers=4) as ex:
-                futs = {d: ex.submit(gdesign.history, d, REPO, tmp + "/h/" + d, 3 if tier == "quick" else 10) for d in P["history_designs"]}
+                futs = {d: ex.submit(gdesign.history, d, REPO, tmp + "/h/" + d, 6 if tier == "quick" else 12) for d in P["history_designs"]}
                 history_results = [(d, f.result()) for d, f in futs.items()]
         tasks = []
         for job in jobs:
